@@ -97,7 +97,7 @@ func dateFromFormats(currentYear int, pattern *regexp.Regexp, d int, m int, y in
 		}
 
 		// lean time.Parse to check if the year, month and day values are valid together, i.e. no 30 of Feb
-		_, err := time.Parse("2006-1-2", fmt.Sprintf("%d-%d-%d", year, month, day))
+		_, err := time.Parse("2006-1-2", fmt.Sprintf("%04d-%d-%d", year, month, day))
 		if err != nil {
 			continue
 		}
